@@ -1553,3 +1553,117 @@ def run_delta_inherited(run, P, node_rec='coap_queue_t'):
                               'the node is unlinked from the send queue (%s) and its relative time is not added to its successor anywhere behind the unlink: every node behind it '
                               'fires early by that amount (a retransmission long before T has elapsed)' % short(t)[:50])
     run.require_count(n >= (3 if run.cfg == 'base' else 1) or run.fixture_mode, 'R-TIMER-REC (delta inherited): fewer than 3 explicit unlinks from the send queue found')
+
+
+# ================================================================================================================ batch 15
+RAW_ALLOC = ('coap_malloc_type', 'malloc')
+
+
+def run_destroy_uninitialised(run, P):
+    """R-HOLDER-LEAK (a destructor meets an uninitialised record): a record obtained from a raw allocator (not zeroed) is handed to a function
+    that frees one of its fields (summary of R-SHALLOW-ALIAS: paths below the parameter that the callee frees) only after that field was
+    assigned, or the record was zeroed, on the path.  `coap_pdu_init()` frees the half-built PDU raw when the buffer allocation fails;
+    calling coap_delete_pdu() there frees `pdu->token - max_hdr_size` with `token` never set - an invalid free of whatever the heap held."""
+    from rules.r_shallow import frees_summary
+    run.rule('R-HOLDER-LEAK')
+    FR = frees_summary(P)
+    n = 0
+    for f in sorted(P.lib_funcs(), key=lambda f: f['name']):
+        raws = []
+        for b, ev in P.events(f):
+            t = ev['e']
+            pairs = []
+            if t.get('k') == 'asg' and t.get('op') == '=':
+                pairs.append((ap(t['l']), strip(t['r'])))
+            elif t.get('k') == 'decl':
+                for d in t['d']:
+                    if 'init' in d:
+                        pairs.append(('v%d' % d['id'], strip(d['init'])))
+            for a, r in pairs:
+                if a and a.startswith('v') and '->' not in a and isinstance(r, dict) and r.get('k') == 'call' and r.get('fn') in RAW_ALLOC:
+                    raws.append((ev, a))
+        if not raws:
+            continue
+        rv = set(a for _e, a in raws)
+        dcalls = []
+        for b, ev in P.events(f):
+            t = ev['e']
+            if t.get('k') == 'call' and t.get('fn'):
+                for i, a in enumerate(t.get('a') or ()):
+                    if ap(a) in rv and any(p_ for p_ in FR.get((t['fn'], i), ()) if p_):
+                        dcalls.append((ev, ap(a), sorted(p_ for p_ in FR[(t['fn'], i)] if p_)))
+        if not dcalls:
+            continue
+        name = f['name']
+        n += len(dcalls)
+        run.instance('R-HOLDER-LEAK', '%s: raw record handed to a field-freeing destructor' % name)
+        rep = set()
+
+        def is_rule_event(ev):
+            return any(ev is r_[0] for r_ in raws) or any(ev is d[0] for d in dcalls)
+        keys, R = relevance(f, is_rule_event, rv)
+
+        def on_event(ev, env, ctx):
+            t = ev['e']
+            for rev, a in raws:
+                if ev is rev:
+                    e = apply_generic(ev, env, R).copy()
+                    e.ts['raw:' + a] = frozenset()
+                    return [e]
+            if t.get('k') == 'call' and t.get('fn') == 'memset' and t.get('a') and ('raw:' + (ap(t['a'][0]) or '')) in env.ts:
+                e = apply_generic(ev, env, R).copy()
+                del e.ts['raw:' + ap(t['a'][0])]
+                return [e]
+            if t.get('k') == 'asg' and t.get('op') == '=' and ap(t.get('l')):
+                l = ap(t['l'])
+                for a in rv:
+                    if ('raw:' + a) in env.ts and (l.startswith(a + '->')):
+                        e = apply_generic(ev, env, R).copy()
+                        e.ts['raw:' + a] = frozenset(env.ts['raw:' + a] | {l[len(a):]})
+                        return [e]
+            for dev, a, paths in dcalls:
+                if ev is dev and ('raw:' + a) in env.ts and env.nullf(a) != 'Z':
+                    missing = [p_ for p_ in paths if not any(p_ == q or p_.startswith(q + '->') or p_.startswith(q + '.') for q in env.ts['raw:' + a])]
+                    run.oblige('R-HOLDER-LEAK', not missing, '%s:destructor-on-initialised-record' % name)
+                    if missing and ev['loc'] not in rep:
+                        rep.add(ev['loc'])
+                        run.violation('R-HOLDER-LEAK', name, ev['loc'], 'destructor-frees-unset-field:%s:%s' % (t['fn'], missing[0]),
+                                      '%s() frees %s of its argument, but the record comes from a raw allocation and that field was never assigned on this path: an invalid free of '
+                                      'whatever the heap block contained' % (t['fn'], ', '.join(missing)[:80]), ctx.path())
+            return None
+        solve(f, Env(), on_event, None, keys, R, key_fn=lambda e: tuple(sorted((k, tuple(sorted(v))) for k, v in e.ts.items() if k.startswith('raw:'))), max_envs=256)
+    run.require_count(n >= (3 if run.cfg == 'base' else 1) or run.fixture_mode, 'R-HOLDER-LEAK (uninitialised record): fewer than 3 raw records handed to field-freeing destructors found')
+
+
+def run_sockets_nonblocking(run, P, request=0x5421):
+    """R-LOCK-WAIT (sockets are non-blocking): every `ioctl(fd, FIONBIO, &V)` that sets up a library socket passes a variable whose only
+    definition is a non-zero constant.  The I/O loop collects readiness with the global lock released and reads after taking it again: on a
+    socket left in blocking mode a read for a datagram another thread already consumed sleeps for ever while holding the lock."""
+    run.rule('R-LOCK-WAIT')
+    n = 0
+    for f in sorted(P.lib_funcs(), key=lambda f: f['name']):
+        for b, ev in P.events(f):
+            t = ev['e']
+            if not (t.get('k') == 'call' and t.get('fn') == 'ioctl' and len(t.get('a') or ()) >= 3 and const_int(t['a'][1]) == request):
+                continue
+            a = strip(t['a'][2])
+            v = ap(a.get('e')) if isinstance(a, dict) and a.get('k') == 'un' and a.get('op') == '&' else None
+            vals = []
+            if v:
+                for b2, e2 in P.events(f):
+                    t2 = e2['e']
+                    if t2.get('k') == 'decl':
+                        for d in t2['d']:
+                            if 'v%d' % d['id'] == v and 'init' in d:
+                                vals.append(const_int(d['init']))
+                    if t2.get('k') == 'asg' and ap(t2.get('l')) == v:
+                        vals.append(const_int(t2['r']) if t2.get('op') == '=' else None)
+            n += 1
+            run.instance('R-LOCK-WAIT', '%s: ioctl(FIONBIO) at %s' % (f['name'], ev['loc'].rsplit(':', 1)[-1]))
+            ok = bool(vals) and all(x is not None and x != 0 for x in vals)
+            run.oblige('R-LOCK-WAIT', ok, '%s:socket-nonblocking' % f['name'])
+            if not ok:
+                run.violation('R-LOCK-WAIT', f['name'], ev['loc'], 'socket-left-blocking',
+                              'ioctl(FIONBIO) is handed a value that is not a non-zero constant (%s): the socket stays in blocking mode, and a read made with the global lock held '
+                              'can sleep for ever' % vals)
+    run.require_count(n >= (3 if run.cfg == 'base' else 1) or run.fixture_mode, 'R-LOCK-WAIT (non-blocking sockets): fewer than 3 ioctl(FIONBIO) calls found')
